@@ -5,7 +5,8 @@ import json, os, re, subprocess, sys, glob
 # works on copies so that /repo and /verif stay usable meanwhile: a worktree of /repo's HEAD and one of /verif's HEAD
 MR, MV = '/tmp/mx/repo', '/tmp/mx/verif'
 subprocess.run(f"mkdir -p /tmp/mx; git -C /repo worktree remove --force {MR}; git -C /repo worktree add -f --detach {MR} HEAD; git -C /verif worktree remove --force {MV}; git -C /verif worktree add -f --detach {MV} HEAD", shell=True, capture_output=True)
-ENV = dict(os.environ, VERIF_HOME=MV, VERIF_REPO=MR)
+ENV = dict(os.environ, VERIF_HOME=MV, VERIF_REPO=MR, VERIF_FAILFAST='1', VERIF_WORKERS=os.environ.get('VERIF_WORKERS', '8'))
+ONLY_MISSING = os.environ.get('ONLY_MISSING') == '1'
 want = sys.argv[1:]
 rows = []
 for d in sorted(glob.glob('/verif/seeded/*/')):
@@ -14,6 +15,8 @@ for d in sorted(glob.glob('/verif/seeded/*/')):
     if want and prop not in want and name not in want:
         continue
     meta = json.load(open(d + 'meta.json'))
+    if ONLY_MISSING and any(v.get('exit') == 1 for v in meta.get('detected_by', {}).values()):
+        continue
     patch = d + ('patch.rebased.diff' if os.path.exists(d + 'patch.rebased.diff') else 'patch.diff')
     chk = meta.get('checks', [prop])
     res = {}
@@ -26,7 +29,9 @@ for d in sorted(glob.glob('/verif/seeded/*/')):
         p = subprocess.run(f"{MV}/check {c} quick", shell=True, capture_output=True, text=True, errors='replace', env=ENV)
         subprocess.run(f"git -C {MR} reset -q; git -C {MR} checkout -- .", shell=True)
         clauses = sorted(set(re.findall(r"clause=(\S+)", p.stdout)))
-        res[c] = {'applies': True, 'exit': p.returncode, 'violations': len(re.findall(r"^VIOLATION", p.stdout, re.M)), 'clauses': clauses}
+        res[c] = {'applies': True, 'exit': p.returncode, 'violations': len(re.findall(r"^VIOLATION", p.stdout, re.M)), 'clauses': clauses, 'exhaustive': 'exhaustive=true' in p.stdout}
+        if p.returncode == 1:
+            break
     meta['detected_by'] = res
     json.dump(meta, open(d + 'meta.json', 'w'), indent=1)
     rows.append((name, res))
